@@ -6,7 +6,12 @@ ID=$1; PATCH=$(readlink -f "$2"); shift 2
 WT=/tmp/mc_${ID}_$$
 git -C /repo worktree add -q "$WT" HEAD || exit 2
 trap 'git -C /repo worktree remove --force "$WT" >/dev/null 2>&1; rm -rf "$WT"' EXIT
-if ! git -C "$WT" apply "$PATCH"; then echo "PATCH DOES NOT APPLY"; exit 2; fi
+# the tree moves (fix: commits): fall back to a 3-way apply, then to a fuzzy patch(1), before giving up
+if ! git -C "$WT" apply "$PATCH" 2>/dev/null; then
+  if git -C "$WT" apply --3way "$PATCH" >/dev/null 2>&1 && ! git -C "$WT" diff --name-only --diff-filter=U | grep -q .; then git -C "$WT" reset -q; echo "(patch applied 3-way)"
+  elif git -C "$WT" checkout -q -- . && patch -d "$WT" -p1 -s -F3 --no-backup-if-mismatch < "$PATCH" >/dev/null 2>&1 && (cd "$WT" && GOFLAGS=-mod=mod GOPROXY=off GOSUMDB=off GOTOOLCHAIN=local go build ./... >/dev/null 2>&1); then echo "(patch applied with fuzz)"
+  else echo "PATCH DOES NOT APPLY"; exit 2; fi
+fi
 # private copy of the Lean project (sources + build cache) and facts: the trial never touches the shared ones
 FR=/dev/shm/vtrial.$ID.$$; mkdir -p "$FR/facts"; cp -a /verif/lean "$FR/lean"
 trap 'git -C /repo worktree remove --force "$WT" >/dev/null 2>&1; rm -rf "$WT" "$FR"' EXIT
